@@ -146,3 +146,41 @@ Definition x_C07_iso_ok (v : val) : val :=
   let faults := as_list (nthv 1 (nthv 0 v)) in
   let obs := nthv 1 v in
   vbool (negb (is_marker obs) && Nat.eqb (length (as_list obs)) (length faults) && forallb iso_step_ok (as_list obs)).
+
+(* ---- real viewers on real transports (harness/transports, shared with C01 / C03) ----
+   case = (refs packets clients events how) as in Run/RunC01Wire.v; observation =
+   ((client ..) snapshots note); the snapshot before the closing event tells which sessions ended *)
+From V Require C01Wire.
+From V Require Import C07Transport.
+
+Definition tr_pkt (v : val) : C01Wire.pkt := (as_int (nthv 0 v), as_bytes (nthv 1 v)).
+Definition tr_chmap (v : val) (ch : Z) : Z :=
+  if (0 <=? ch) && (ch <? 4) then as_int (nthv (Z.to_nat ch) v) else -1.
+Definition tr_tag (v : val) : C01Wire.tag := (as_int (nthv 0 v), as_int (nthv 1 v), as_bytes (nthv 2 v)).
+
+(* FLV viewers: the same tags (type, data) as an in-process consumer attached at the same moment;
+   the time line of the tags is C01's / C08's business (hostile input bends presentation times) *)
+Definition tag_same (a b : C01Wire.tag) : bool :=
+  (C01Wire.tag_type a =? C01Wire.tag_type b) && bytes_eqb (snd a) (snd b).
+
+Definition tr_check_client (pkts : list C01Wire.pkt) (cv ov : val) (ended : bool) : bool :=
+  let kind := as_int (nthv 0 cv) in
+  if (kind <? 4) || (kind =? 6) then
+    tr_client_ok kind (tr_chmap (nthv 1 cv)) pkts (map tr_pkt (as_list (nthv 0 ov))) ended
+  else negb ended && list_eqb tag_same (map tr_tag (as_list (nthv 1 ov))) (map tr_tag (as_list (nthv 0 ov))).
+
+Fixpoint tr_all (pkts : list C01Wire.pkt) (cs os : list val) (es : list val) : bool :=
+  match cs, os, es with
+  | [], [], _ => true
+  | c :: cs', o :: os', e :: es' => tr_check_client pkts c o (as_bool e) && tr_all pkts cs' os' es'
+  | _, _, _ => false
+  end.
+
+Definition x_C07_tr_ok (v : val) : val :=
+  let c := nthv 0 v in let obs := nthv 1 v in
+  let pkts := map tr_pkt (as_list (nthv 1 c)) in
+  let snaps := as_list (nthv 1 obs) in
+  let before_close := nth (length snaps - 2) snaps (VL []) in
+  vbool (negb (is_marker obs) && (2 <=? Z.of_nat (length snaps)) &&
+         forallb C01Wire.pkt_wf pkts &&
+         tr_all pkts (as_list (nthv 2 c)) (as_list (nthv 0 obs)) (as_list (nthv 4 before_close))).
